@@ -260,6 +260,30 @@ func (j *J2K) Check(total int) error {
 	if j.Trailer != 0 {
 		return fmt.Errorf("%d bytes follow EOC", j.Trailer)
 	}
+	// the default quantisation segment describes the default coding style (T.800 A.6.4: one
+	// entry per sub-band, 3 x levels + 1, for styles 0 and 2; exactly one for the derived style;
+	// no quantisation with the 5/3 transform, scalar quantisation with the 9/7)
+	if j.COD != nil && j.QCD != nil {
+		nb := 3*j.COD.Levels + 1
+		switch {
+		case j.QCD.Style == 1 && len(j.QCD.Exp) != 1:
+			return fmt.Errorf("QCD style 1 (derived) carries %d step sizes", len(j.QCD.Exp))
+		case j.QCD.Style != 1 && len(j.QCD.Exp) != nb:
+			return fmt.Errorf("QCD carries %d entries, COD declares %d levels (%d sub-bands)", len(j.QCD.Exp), j.COD.Levels, nb)
+		case j.COD.Transform == 1 && j.QCD.Style != 0:
+			return fmt.Errorf("QCD style %d with the reversible transform", j.QCD.Style)
+		case j.COD.Transform == 0 && j.QCD.Style == 0:
+			return fmt.Errorf("QCD style 0 (no quantisation) with the irreversible transform")
+		case j.COD.Transform > 1:
+			return fmt.Errorf("COD transform %d", j.COD.Transform)
+		case j.COD.MCT > 1 || (j.COD.MCT == 1 && j.Csiz < 3):
+			return fmt.Errorf("COD multiple component transform %d with %d components", j.COD.MCT, j.Csiz)
+		case j.COD.Prog > 4:
+			return fmt.Errorf("COD progression order %d", j.COD.Prog)
+		case j.COD.Layers < 1:
+			return fmt.Errorf("COD declares %d layers", j.COD.Layers)
+		}
+	}
 	sum := 0
 	for _, tp := range j.Parts {
 		sum += tp.Psot
